@@ -48,6 +48,20 @@ static int fdprintf(const char *fmt, ...)
 #include "echsd.c"
 #undef main
 
+/* ---- logging: formatting and logging get empty bodies (the native replay links the real logger.c) */
+#if defined VERIF_CBMC
+static void env_log(int prio, const char *fmt, ...) { (void)prio; (void)fmt; }
+void(*echs_log)(int prio, const char *fmt, ...) = env_log;
+void echs_errlog(int prio, const char *fmt, ...) { (void)prio; (void)fmt; }
+#endif
+/* the executor's path is set up by main(), which no harness runs */
+#define ENV_INIT()	(echsx = "/usr/libexec/echsx")
+
+#if defined VERIF_CBMC && !defined ENV_OWN_SNPRINTF
+/* file names are not looked at by these harnesses (C06 brings its own) */
+int snprintf(char *buf, size_t z, const char *fmt, ...) { (void)fmt; if (z) buf[0] = '\0'; return 0; }
+#endif
+
 /* ---- libev stand-in */
 #if !defined ENV_MAXP
 # define ENV_MAXP 3
@@ -150,6 +164,33 @@ static int env_child_exit(unsigned int k)
 		return 1;
 	}
 	return 0;
+}
+
+/* ---- add_chkpnt(): the dirty-user bookkeeping (a nedtrie insertion, 25k symex steps per
+ * reachable call site) is C06's subject; C04/C11/C12 cut it with goto-instrument
+ * --replace-calls add_chkpnt:env_add_chkpnt and only record that it was asked for */
+static unsigned int env_chkpnt_asked;
+void env_add_chkpnt(uid_t u) { (void)u; env_chkpnt_asked++; }
+
+/* ---- child watcher allocation: echsd's free-list pool is an array of ev_child threaded through
+ * malloc'ed memory; harnesses whose subject is not the pool itself replace make_chld/free_chld
+ * (goto-instrument --replace-calls) by this separate-objects allocator */
+static ev_child env_chld_obj[4];
+static int env_chld_used[4];
+ev_child *env_make_chld(void)
+{
+	if (!env_chld_used[0]) { env_chld_used[0] = 1; return &env_chld_obj[0]; }
+	if (!env_chld_used[1]) { env_chld_used[1] = 1; return &env_chld_obj[1]; }
+	if (!env_chld_used[2]) { env_chld_used[2] = 1; return &env_chld_obj[2]; }
+	if (!env_chld_used[3]) { env_chld_used[3] = 1; return &env_chld_obj[3]; }
+	return NULL;
+}
+void env_free_chld(ev_child *c)
+{
+	if (c == &env_chld_obj[0]) env_chld_used[0] = 0;
+	if (c == &env_chld_obj[1]) env_chld_used[1] = 0;
+	if (c == &env_chld_obj[2]) env_chld_used[2] = 0;
+	if (c == &env_chld_obj[3]) env_chld_used[3] = 0;
 }
 
 /* ---- process / file stand-ins */
